@@ -273,7 +273,7 @@ let () =
       let emit s = if String.length s >= 4 && String.sub s 0 4 = "CASE" then emit s else emit (Printf.sprintf "@%d %s" !cmdno s) in
       let (ans, next) = answers !i in
       let failed_cmd = List.exists (fun a -> a = "UNSUPPORTED" || (String.length a >= 3 && String.sub a 0 3 = "EXC") || (String.length a >= 5 && String.sub a 0 5 = "CRASH")) ans in
-      (match cmd with
+      (try (match cmd with
        | "CASE" :: rest -> cmdno := 0; swapped := false; case_name := String.concat " " rest; cells := []; rowids := []; last_bars := None; emit ("CASE " ^ !case_name)
        | ["NEW"; pp] -> swapped := false; p := int_of_string pp; cells := []; rowids := []; last_bars := None
        | "I" :: id :: dim :: b ->
@@ -417,7 +417,8 @@ let () =
                                           (String.concat "," (List.map string_of_int bs)) (String.concat "," (List.map string_of_int eb)))
                  else emit (Printf.sprintf "OK representative cycles (%d)" !ncyc)))
          end
-       | _ -> ());
+       | _ -> ())
+       with e -> emit ("FAIL malformed answer: what the matrix returned cannot be interpreted (" ^ Printexc.to_string e ^ "): " ^ String.concat " | " (List.filteri (fun j _ -> j < 3) ans)));
       i := next
     end else incr i
   done;
